@@ -23,7 +23,9 @@ behind a Sub whose stream is still open; after End the pipelined calls behind it
 order; other connections equal their own model throughout; after a write failure only that \
 connection stops receiving (the others stay equal to their model, the server stays pending). \
 Exhaustive lane: every interleaving of {stream pushes/end of connection 0} with {chunk deliveries \
-of connection 1} for a burst `Echo, Sub, Echo, Fail` on connection 0. Non-trivial = a burst in \
+of connection 1} for a burst `Echo, Sub, Echo, Fail` on connection 0. A further lane: one subscriber's stream always has its next item ready while its transport needs \
+1..3 polls per write; 1..2 other clients deliver 1..3 calls at some poll and must have their replies \
+after 80 polls of the server. Non-trivial = a burst in \
 which calls follow a Sub in the same connection, and another connection is served while that stream \
 is open; distinct by hash of the scenario.";
 
